@@ -183,6 +183,117 @@ fn check_year(y: i64, log: &mut Log) {
   }
 }
 
+/// histories: a single-thread sequence of 6..16 operations on related dates (the same date again, days a few
+/// days / a month / a year away, the same month-day in a year that differs by a cycle or a power of two or ten,
+/// month and day exchanged); fractional Julian dates of the evening, refused triples and length queries are mixed
+/// in so that whatever they leave behind on the thread meets the next conversion
+fn history(i: usize, cfg: &Cfg, log: &mut Log) {
+  let c = cal();
+  let mut rng = Rng::new(mix(cfg.seed, i as u64 ^ 0x1C01));
+  let len = rng.range(6, 16);
+  let mut n = crate::history::start_day(&mut rng);
+  let key = format!("seq{}_{}", i, cal::fmt_dn(n));
+  let mut trace: Vec<String> = vec![];
+  let r = guard(|| {
+    let mut out: Vec<(String, String)> = vec![];
+    let mut judged = 0u64;
+    for step in 0..len {
+      let (y, m, d) = c.date(n);
+      let name = cal::fmt_dn(n);
+      match rng.below(9) {
+        0 => {
+          // an evening instant of day n as a fractional Julian date: the date is n, or n+1 once the instant rounds
+          // up to midnight (23:59:59.5 and later)
+          let ms = *rng.pick(&[0i64, 21_600_000, 43_200_000, 86_399_000, 86_399_400, 86_399_600, 86_399_900, 64_800_000]);
+          let jd = n as f64 - 0.5 + ms as f64 / 86_400_000.0;
+          let got = dn_of(&JulianDay::from_julian_day(jd).get_solar_day());
+          let want = if ms >= 86_399_500 { n + 1 } else { n };
+          trace.push(format!("jd({}+{}ms)", name, ms));
+          if want <= LAST {
+            judged += 1;
+            if got != Some(want) {
+              out.push((format!("step {} {}: Julian date {} -> {:?}", step, trace.join(" "), jd, got.map(cal::fmt_dn)), cal::fmt_dn(want)));
+            }
+          }
+        }
+        1 | 2 => {
+          trace.push(format!("roundtrip({})", name));
+          let sd = SolarDay::from_ymd(y as isize, m as usize, d as usize);
+          let jd = sd.get_julian_day();
+          let back = dn_of(&jd.get_solar_day());
+          judged += 1;
+          if jd.get_day() != n as f64 - 0.5 || back != Some(n) {
+            out.push((format!("step {} {}: day count {} back {:?}", step, trace.join(" "), jd.get_day(), back.map(cal::fmt_dn)), format!("day count {} back {}", n as f64 - 0.5, name)));
+          }
+        }
+        3 | 4 => {
+          let t = crate::history::related_day(&mut rng, n);
+          trace.push(format!("next({}, {:+})", name, t - n));
+          let got = dn_of(&sd_of_dn(n).next((t - n) as isize));
+          judged += 1;
+          if got != Some(t) {
+            out.push((format!("step {} {}: {:?}", step, trace.join(" "), got.map(cal::fmt_dn)), cal::fmt_dn(t)));
+          }
+        }
+        5 => {
+          let o = crate::history::related_day(&mut rng, n);
+          trace.push(format!("subtract({}, {})", name, cal::fmt_dn(o)));
+          let (a, b) = (sd_of_dn(n), sd_of_dn(o));
+          let got = (a.subtract(b) as i64, a.is_before(b), a.is_after(b));
+          judged += 1;
+          if got != (n - o, n < o, n > o) {
+            out.push((format!("step {} {}: {:?}", step, trace.join(" "), got), format!("{:?}", (n - o, n < o, n > o))));
+          }
+        }
+        6 => {
+          // a triple next to the date that does not exist, then the date itself
+          let bad = (y, m, cal::nominal_mlen(y, m) + 1);
+          trace.push(format!("refuse({:?}) accept({})", bad, name));
+          let refused = guard(|| SolarDay::new(bad.0 as isize, bad.1 as usize, bad.2 as usize).is_ok()).map(|ok| !ok).unwrap_or(true);
+          let ok = SolarDay::new(y as isize, m as usize, d as usize).map(|v| dn_of(&v));
+          judged += 1;
+          if !refused || ok != Ok(Some(n)) {
+            out.push((format!("step {} {}: refused={} accepted={:?}", step, trace.join(" "), refused, ok), "refused, then accepted as itself".into()));
+          }
+        }
+        7 => {
+          trace.push(format!("lengths({:04}-{:02})", y, m));
+          let got = (SolarMonth::from_ym(y as isize, m as usize).get_day_count() as i64, SolarYear::from_year(y as isize).get_day_count() as i64, SolarYear::from_year(y as isize).is_leap());
+          judged += 1;
+          if got != (cal::mdays(y, m), cal::ydays(y), cal::is_leap(y)) {
+            out.push((format!("step {} {}: {:?}", step, trace.join(" "), got), format!("{:?}", (cal::mdays(y, m), cal::ydays(y), cal::is_leap(y)))));
+          }
+        }
+        _ => {
+          trace.push(format!("day-of-year({})", name));
+          let got = sd_of_dn(n).get_index_in_year() as i64;
+          judged += 1;
+          if got != n - c.year_first(y) {
+            out.push((format!("step {} {}: {}", step, trace.join(" "), got), format!("{}", n - c.year_first(y))));
+          }
+        }
+      }
+      if !out.is_empty() {
+        break;
+      }
+      n = crate::history::related_day(&mut rng, n);
+    }
+    (out, judged)
+  });
+  log.ev(1);
+  log.nt(1);
+  match r {
+    Ok((v, judged)) => {
+      log.count("history.sequences", 1);
+      log.count("history.answers_judged", judged);
+      if let Some((o, e)) = v.into_iter().next() {
+        log.violate(format!("C01/history/{}", key), "a sequence of conversions on related dates on one thread", key.clone(), o, e);
+      }
+    }
+    Err(msg) => log.violate(format!("C01/panic-history/{}", key), "a sequence of conversions on related dates on one thread", key.clone(), format!("panic: {}", msg), "no panic".into()),
+  }
+}
+
 pub fn run(cfg: &Cfg) -> (Log, Meta) {
   let mut log = Log::new();
   if let Err(e) = cal::self_test() {
@@ -194,6 +305,9 @@ pub fn run(cfg: &Cfg) -> (Log, Meta) {
   years.extend_from_slice(&[0, -1, -4, 10000, 10001]);
   log.merge(par_range(years.len(), 64, |i, l| check_triples(years[i], l)));
   log.merge(par_range(9999, 256, |i, l| check_year(i as i64 + 1, l)));
+  let nh = cfg.tier.pick(40_000usize, 1_000_000usize);
+  log.merge(par_range(nh, 200, |i, l| history(i, cfg, l)));
+  log.floor("history.answers_judged", cfg.tier.pick(300_000, 7_000_000));
   log.floor("date.boundary_dates", 100_000);
   log.floor("date.october_1582_days", 21);
   log.floor("accept.accepted", 3_000_000);
@@ -205,10 +319,11 @@ pub fn run(cfg: &Cfg) -> (Log, Meta) {
   };
   let meta = Meta {
     rule: format!(
-      "exhaustive: every one of the 3,652,061 civil dates (day number by counting from 0001-01-01=1721424) is constructed, converted to its day count and back, stepped by 0,+-1 and {} fixed spans plus 2 seeded-random step counts, subtracted from / ordered against both neighbours, the first day of its month and year, {} seeded-random partner(s) and {} fixed spans; every (year 1..9999 and 0,-1,-4,10000,10001; month 0..13; day 0..32) triple is offered to SolarDay::new; every month and year length and leap flag is read. Non-trivial = month ends, Feb 28/29, Jan 1, Dec 31, 1582-09-20..1582-10-31, and refused triples adjacent (one field +-1) to an existing date.",
+      "exhaustive: every one of the 3,652,061 civil dates (day number by counting from 0001-01-01=1721424) is constructed, converted to its day count and back, stepped by 0,+-1 and {} fixed spans plus 2 seeded-random step counts, subtracted from / ordered against both neighbours, the first day of its month and year, {} seeded-random partner(s) and {} fixed spans; every (year 1..9999 and 0,-1,-4,10000,10001; month 0..13; day 0..32) triple is offered to SolarDay::new; every month and year length and leap flag is read; histories: {} seeded single-thread sequences of 6..16 operations (round trip, evening Julian dates up to 23:59:59.9, next, subtract / order, a refused neighbour triple then the date, lengths, day of year) on dates related to the previous one (same date, days / a month / a year away, same month-day in a year differing by a cycle, a power of two or ten or a digit, month and day exchanged), each answer judged. Non-trivial = month ends, Feb 28/29, Jan 1, Dec 31, 1582-09-20..1582-10-31, and refused triples adjacent (one field +-1) to an existing date.",
       STEPS.len(),
       partners,
-      SPANS.len()
+      SPANS.len(),
+      nh
     ),
     assumptions: vec![
       "the oracle calendar (Julian before 1582-10-05, Gregorian from 1582-10-15) is the harness' own model; it is cross-checked on every run against two closed-form JDN algorithms and fixed anchors".into(),
